@@ -250,7 +250,7 @@ class Streaming(OperatorMixin, core.APIRegisterMixin):
 
     def emit(self, x):
         self.verify(x)
-        self.stream.emit(x)
+        return self.stream.emit(x)
 
     def verify(self, x):
         """ Verify elements that pass through this stream """
